@@ -127,10 +127,14 @@ def main_clause(cl, rng, n, replay):
             cl.skipped += 1
             continue
         h = hvsrpy.HvsrTraditional(f, A)
+        # "for every choice of distributions": every spelling the library's own DISTRIBUTION_MAP declares for the two distributions
+        spell = lambda d: d if d == "normal" or rng.random() < 0.5 else "log-normal"
+        dfn_given, dmc_given = spell(dfn), spell(dmc)
         try:
-            it = hvsrpy.frequency_domain_window_rejection(h, n=nn, max_iterations=mi, distribution_fn=dfn, distribution_mc=dmc, search_range_in_hz=rng_hz)
+            it = hvsrpy.frequency_domain_window_rejection(h, n=nn, max_iterations=mi, distribution_fn=dfn_given, distribution_mc=dmc_given, search_range_in_hz=rng_hz)
         except Exception as ex:
-            cl.fail("hvsrpy.window_rejection.frequency_domain_window_rejection", f"{type(ex).__name__}: {ex}", signature="fdwra:exception", n=nn, max_iterations=mi)
+            cl.fail("hvsrpy.window_rejection.frequency_domain_window_rejection", f"{type(ex).__name__}: {ex} (distribution_fn={dfn_given!r}, distribution_mc={dmc_given!r})",
+                    signature="fdwra:exception", n=nn, max_iterations=mi)
             return
         cl.case((j, nn, mi, dfn, dmc, rng_hz), nontrivial=bool((~want[1] & want[3]).any()))
         if not (isinstance(it, (int, np.integer)) and 1 <= it <= mi and it == want[2] and np.array_equal(h.valid_window_boolean_mask, want[0])
@@ -218,8 +222,9 @@ def azimuthal_clause(cl, rng, n, replay):
         sets = [gen_curves(rng) for _ in range(naz)]
         f = np.geomspace(0.2, 20, 30)
         As = []
+        k_common = int(rng.integers(5, 10))
         for _ in range(naz):
-            k = int(rng.integers(5, 10))
+            k = k_common if j % 2 == 1 else int(rng.integers(5, 10))
             base = rng.uniform(0.8, 5)
             As.append(np.array([1 + 3 * np.exp(-(np.log(f / (base * np.exp(rng.normal(0, 0.2)))) / 0.25) ** 2) + 0.1 * np.abs(rng.normal(0, 1, 30)) for _ in range(k)]))
         nn, mi = float(rng.choice([1.0, 2.0])), int(rng.choice([1, 3, 50]))
@@ -232,8 +237,20 @@ def azimuthal_clause(cl, rng, n, replay):
             cl.skipped += 1
             continue
         h = hvsrpy.HvsrAzimuthal([hvsrpy.HvsrTraditional(f, A) for A in As], list(np.linspace(0, 150, naz)))
+        prior = None
+        if j % 2 == 1 and len({len(A) for A in As}) == 1:
+            # a history: a time-domain rejection with the azimuthal object attached that keeps every window (all azimuths get the all-True selection);
+            # the frequency-domain decisions that follow are still taken azimuth by azimuth
+            from bounded import refproc as rp
+            recs = [rp.mk_record(*rp.gen_window(rng, N=200, dt=0.01)) for _ in range(len(As[0]))]
+            if j % 4 == 1:
+                hvsrpy.maximum_value_window_rejection(recs, maximum_value_threshold=1e300, normalized=False, hvsr=h)
+                prior = "maximum-value (keeps all)"
+            else:
+                hvsrpy.sta_lta_window_rejection(recs, sta_seconds=0.2, lta_seconds=1.0, min_sta_lta_ratio=0.0, max_sta_lta_ratio=1e300, hvsr=h)
+                prior = "sta-lta (keeps all)"
         it = hvsrpy.frequency_domain_window_rejection(h, n=nn, max_iterations=mi)
-        cl.case((j, naz, nn, mi))
+        cl.case((j, naz, nn, mi, prior))
         if it != max(w[2] for w in wants) or any(not np.array_equal(hv.valid_peak_boolean_mask, w[1]) or not np.array_equal(hv.valid_window_boolean_mask, w[0])
                                                    for hv, w in zip(h.hvsrs, wants)):
             cl.fail("hvsrpy.window_rejection.frequency_domain_window_rejection", "azimuthal: per-azimuth decisions / maximum iteration count differ from the algorithm",
